@@ -45,6 +45,7 @@ class Contract:
     pure: bool = False  # the result is a function of the arguments (same arguments, same result)
     wf: bool = True  # record parameters are assumed (and required at call sites) to be well-formed
     at_yield: list[str] = field(default_factory=list)  # @contextmanager: clauses that must hold when the with-body starts
+    guard: str = ''  # variants of one function told apart by a condition on the arguments: assumed for the variant's own proof, decided (forked) at call sites
     kwparam: str = ''  # name of the function's **kwargs parameter: keyword arguments outside `sig` are collected into it
 
     def __post_init__(self):
@@ -385,6 +386,11 @@ def pick_variant(ip: Interp, vs: VariantSet, recv, args, kwargs, n) -> Contract:
                 ok = False
             if sortname.strip() != 'None' and v is None and not sortname.strip().startswith(('Val', 'any')):
                 ok = False
+        if ok and c.guard:
+            cond = spec_eval_env(ip, c.guard, env)
+            cond = ip.truth(cond, n) if not isinstance(cond, bool) else cond
+            if not (cond if isinstance(cond, bool) else ip.p.fork(cond)):
+                continue
         if ok:
             return c
     ip.oos(f'no contract variant fits this call of {vs.variants[0].key}', n)
@@ -632,7 +638,7 @@ def _run_path(ip: Interp, c: Contract, fn: ast.FunctionDef, cls):
     for name, sortname in c.sig.items():
         if c.wf:
             wf_assume(ip, env[name], sortname)
-    for clause in c.requires:
+    for clause in c.requires + ([c.guard] if c.guard else []):
         p.assume(spec_eval_env(ip, clause, env))
     if any(ast.unparse(d) in ('contextmanager', 'contextlib.contextmanager') for d in fn.decorator_list):
         if 'body' not in c.ghost:
@@ -678,6 +684,10 @@ def _run_path(ip: Interp, c: Contract, fn: ast.FunctionDef, cls):
             penv[name] = env[f'old_{name}']
         else:
             penv[name] = ip._entry_objs[name]  # the object passed in, in its final state (the local may be rebound)
+    if c.ret.strip() == 'None':
+        # the contract says the function returns nothing: check it (a returned value would otherwise be dropped silently)
+        isnone = True if result is None else (result == Val.none if S.is_val(result) else False)
+        p.oblige('post', isnone if z3.is_expr(isnone) else z3.BoolVal(bool(isnone)), fn, 'returns None', tag='support')
     penv['retval' if 'result' in c.sig else 'result'] = _coerce_result(ip, result, c.ret, fn)
     _frame_check(ip, c, fn)
     sub = Interp(p, None, penv, spec=True, fname=f'{ip.fname}<post>')
